@@ -1,6 +1,7 @@
 (* C01 — property theorems only.  Each is closed by `exact` of a lemma of C01_Proofs.v. *)
 From Coq Require Import List NArith Bool String.
 From Dae Require Import C01_Spec C01_Model C01_Proofs.
+From Dae.gen Require C01_Patch.
 Import ListNotations.
 Open Scope N_scope.
 
@@ -50,6 +51,26 @@ Theorem C01_glue :
     = match_sets mt dm (args_of_packet pk).
 Proof. exact C01_glue_proof. Qed.
 Print Assumptions C01_glue.
+
+(* MUST_ PREFIX.  The patch of config/patch.go on outbound names, with the strip operation extracted from the source
+   (gen/C01_Patch.v: strings.TrimPrefix with the literal "must_", tested by strings.HasPrefix with the same literal):
+   for EVERY group name n, `must_n` becomes exactly n with the must flag — whatever letters n begins with — and a name
+   without the prefix is left alone; the fallback's strip is the same operation. *)
+Theorem C01_must_patch_exact :
+  (forall n : string, patch_name (String.append "must_" n) = (n, true)) /\
+  (forall s : string, prefix "must_" s = false -> patch_name s = (s, false)) /\
+  C01_Patch.patch_has_prefix_arg = "must_"%string /\
+  (forall n : string, apply_strip C01_Patch.patch_fallback_strip_op C01_Patch.patch_fallback_strip_arg (String.append "must_" n) = n).
+Proof. exact C01_must_patch_exact_proof. Qed.
+Print Assumptions C01_must_patch_exact.
+
+(* The same statement is FALSE of strings.TrimLeft(name, "must_") (a cutset, not a prefix): witness us_proxy. *)
+Theorem C01_must_patch_trimleft_refuted :
+  (exists n : string, patch_name_with C01_Patch.StripTrimLeft "must_" (String.append "must_" n) <> (n, true)) /\
+  patch_name_with C01_Patch.StripTrimLeft "must_" "must_us_proxy" = ("proxy"%string, true) /\
+  patch_name_with C01_Patch.StripTrimLeft "must_" "must_steam" = ("eam"%string, true).
+Proof. exact C01_must_patch_trimleft_refuted_proof. Qed.
+Print Assumptions C01_must_patch_trimleft_refuted.
 
 (* The named boundary clauses of the property, restated on the spec so that a weakening of `decide` is visible. *)
 Theorem C01_negated_mac_zero :
